@@ -145,9 +145,18 @@ func RunC03(ctx *core.Ctx) {
 				if k == 0 {
 					n = 3
 				}
+				if k == 1 || r.Intn(12) == 0 {
+					// more rows than any internal batching constant (64-row write chunks,
+					// 512-value dictionary insert chunks)
+					n = []int{513, 700, 1100}[r.Intn(3)]
+				}
 				prof := &gen.Profile{NullProb: []float64{0.1, 0.5, 0.9}[r.Intn(3)], MaxLen: 1 + r.Intn(4), SmallDomain: r.Intn(3) == 0}
 				if r.Intn(2) == 0 {
 					prof.RunLen = 70
+				}
+				if n > 500 {
+					prof.SmallDomain = false // new dictionary values keep appearing late in the batch
+					prof.MaxLen = 2
 				}
 				rows := e.NewRows(n)
 				gen.FillRows(r, rows, prof)
